@@ -1,7 +1,10 @@
 import SpdxVerif.Props.C08
+import SpdxVerif.Props.Consts
 #print axioms Spdx.C08.only_shares_group
 #print axioms Spdx.C08.no_active_base_of_orLater
 #print axioms Spdx.C08.normalize_only
 #print axioms Spdx.C08.normalize_plus_listed
 #print axioms Spdx.C08.normalize_orLater_unlisted
 #print axioms Spdx.C08.pos_orLater
+#print axioms Spdx.ConstsPin.normalizeLicense_literals
+#print axioms Spdx.ConstsPin.simplifyLicense_literals
